@@ -729,8 +729,16 @@ func (t *Terminal) readLine() (line string, err error) {
 		lineOk := false
 		for !lineOk {
 			var key rune
+			before := len(rest)
 			key, rest = bytesToKey(rest, t.pasteActive)
 			if key == utf8.RuneError {
+				if len(rest) > 0 && len(rest) < before {
+					// not a partial key but a byte that is no key at all (a
+					// telnet IAC, 0xff, for one) and has been skipped: go on
+					// with what follows it instead of waiting for more input,
+					// which may never come
+					continue
+				}
 				break
 			}
 			if !t.pasteActive {
